@@ -64,7 +64,16 @@ func runParseBatch(c *Ctx, jobs []*SynJob, drv string, refs []*parseRef, judge j
 			}
 			continue
 		}
-		cases = append(cases, &DCase{G: ref.job.Name, Op: "parse", Feed: &DFeed{Toks: ref.job.Names(ref.toks), Fail: ref.fail, Render: len(cases)%2 == 0, Rot: len(cases) % 3}})
+		feed := &DFeed{Toks: ref.job.Names(ref.toks), Fail: ref.fail, Render: len(cases)%2 == 0, Rot: len(cases) % 3}
+		if ref.fail >= 0 {
+			// a Parse that ends with an action error, then the same input without the failure on
+			// the same parser object: the second result must still be the one the grammar gives
+			again := *feed
+			again.Fail = -1
+			cases = append(cases, &DCase{G: ref.job.Name, Op: "session", Items: []*DFeed{feed, &again}})
+		} else {
+			cases = append(cases, &DCase{G: ref.job.Name, Op: "parse", Feed: feed})
+		}
 		live = append(live, ref)
 	}
 	if len(cases) == 0 {
@@ -79,11 +88,22 @@ func runParseBatch(c *Ctx, jobs []*SynJob, drv string, refs []*parseRef, judge j
 		ref := live[i]
 		c.Eval(1)
 		used[ref.job.Name] = true
+		var after *DPResult
+		if cases[i].Op == "session" && len(r.Ps) == 2 {
+			r.P, after = &r.Ps[0], &r.Ps[1]
+		}
 		if r.Err != "" || r.P == nil {
 			c.Violation(&Witness{Kind: "parse", Grammar: ref.job.G, Flags: ref.job.Flags, Toks: ref.job.Names(ref.toks), FailAt: ref.fail, Note: "driver error: " + r.Err})
 			continue
 		}
 		why, nontrivial, expected := judge(c, ref, r.P)
+		if why == "" && after != nil {
+			c.Add("parses_repeated_on_the_same_parser_after_an_action_error", 1)
+			if w2, _, e2 := judge(c, &parseRef{ref.job, ref.toks, -1}, after); w2 != "" {
+				why, expected = "on a parser whose previous Parse ended with an action error: "+w2, e2
+				r.P = after
+			}
+		}
 		if nontrivial {
 			c.Nontrivial(ref.job.Name + "/" + strings.Join(ref.job.Names(ref.toks), " ") + fmt.Sprint("/", ref.fail))
 		}
